@@ -107,9 +107,12 @@ Definition cordero_absent_ok (t : cov) (z : Z) : bool :=
   else ((if Z.eqb z 0 then true else rq_eqb (cov_radius EB t z) NoneVal) && rq_eqb (cov_unc_raw EB t z) NoneVal)%bool.
 Definition cordero_group_ok (t : cov) (g : Z * Q * list Q) : bool :=
   let '(z, r, _) := g in rq_eqb (cov_radius EB t z) (Val r).
-Definition percent_ok (e : Z * Q * Q) : bool :=
+Definition percent_ok (scale : Q) (e : Z * Q * Q) : bool :=
   let u := snd e in
-  Qle_bool (Qabs (cov_unc_float unc_scale u - u / 100)) (u / 100 * (1 # 2 ^ 50)).
+  Qle_bool (Qabs (cov_unc_float scale u - u / 100)) (u / 100 * (1 # 2 ^ 50)).
+Lemma percent_ok_sound : forall scale z r u, percent_ok scale (z, r, u) = true ->
+  (Qabs (cov_unc_float scale u - u / 100) <= u / 100 * (1 # 2 ^ 50))%Q.
+Proof. intros scale z r u H. apply Qle_bool_iff. exact H. Qed.
 
 Lemma cordero_rows_c : on the_cov (fun t => forallb (cordero_row_ok t) cordero_numbered) = true.
 Proof. Time vm_compute. reflexivity. Time Qed.
@@ -119,7 +122,7 @@ Lemma cordero_groups_c : on the_cov (fun t => forallb (cordero_group_ok t) corde
 Proof. Time vm_compute. reflexivity. Time Qed.
 Lemma cordero_accounted_c : forallb row_accounted Cordero = true.
 Proof. Time vm_compute. reflexivity. Time Qed.
-Lemma cordero_percent_c : forallb percent_ok cordero_numbered = true.
+Lemma cordero_percent_c : forallb (percent_ok unc_scale) cordero_numbered = true.
 Proof. Time vm_compute. reflexivity. Time Qed.
 Lemma cordero_has_alternates_c :
   existsb (fun g => match snd g with [] => false | _ => true end) cordero_groups = true.
@@ -153,7 +156,7 @@ Proof.
   intros t E z Hz Hno. pose proof (on_elim _ _ _ t cordero_absent_c E) as H.
   rewrite forallb_forall in H. specialize (H _ Hz). unfold cordero_absent_ok in H.
   destruct (existsb (fun e => Z.eqb (fst (fst e)) z) cordero_numbered) eqn:Ex.
-  - apply existsb_exists in Ex. destruct Ex as [[[z' r] u] [Hin Hk]]. simpl in Hk. apply Z.eqb_eq in Hk. subst z'.
+  - apply existsb_exists in Ex. destruct Ex as [[[z' r] u] [Hin Hk]]. cbn [fst snd] in Hk. apply Z.eqb_eq in Hk. subst z'.
     exfalso. exact (Hno r u Hin).
   - apply andb_prop in H. destruct H as [H1 H2]. split.
     + intro Hnz. destruct (Z.eqb_spec z 0) as [->|_]; [congruence|].
@@ -172,7 +175,7 @@ Qed.
 Theorem alternates_exist : exists z r a alts, In (z, r, a :: alts) cordero_groups.
 Proof.
   pose proof cordero_has_alternates_c as H. apply existsb_exists in H.
-  destruct H as [[[z r] alts] [Hin Hne]]. simpl in Hne. destruct alts as [|a alts]; [discriminate|].
+  destruct H as [[[z r] alts] [Hin Hne]]. cbn [fst snd] in Hne. destruct alts as [|a alts]; [discriminate|].
   exists z, r, a, alts. exact Hin.
 Qed.
 
@@ -180,8 +183,8 @@ Open Scope Q_scope.
 Theorem uncertainty_is_percent : forall z r u, In (z, r, u) cordero_numbered ->
   Qabs (cov_unc_float unc_scale u - u / 100) <= u / 100 * (1 # 2 ^ 50).
 Proof.
-  intros z r u Hin. pose proof cordero_percent_c as H. rewrite forallb_forall in H. specialize (H _ Hin).
-  unfold percent_ok in H. simpl in H. apply Qle_bool_iff. exact H.
+  intros z r u Hin. pose proof cordero_percent_c as H. rewrite forallb_forall in H.
+  exact (percent_ok_sound unc_scale z r u (H _ Hin)).
 Qed.
 Close Scope Q_scope.
 
@@ -253,7 +256,7 @@ Theorem spectral_rows : forall t, the_spectral = Some t -> forall sym a b, In (s
   exists z, eb_number EB sym = Some z /\ k_alpha_of EB t z = Val a /\ k_beta1_of EB t z = Val b.
 Proof.
   intros t E sym a b Hin. pose proof (on_elim _ _ _ t spectral_row_c E) as H. rewrite forallb_forall in H.
-  specialize (H _ Hin). unfold spectral_row_ok in H. simpl in H.
+  specialize (H _ Hin). unfold spectral_row_ok in H. cbn [fst snd] in H.
   destruct (eb_number EB sym) as [z|]; [|discriminate H]. exists z. apply andb_prop in H. destruct H as [H1 H2].
   split; [reflexivity|]. split; apply (res_eqb_eq _ _ q_eqb_eq); assumption.
 Qed.
@@ -307,7 +310,7 @@ Proof.
   apply (agree mkey_eqb mkey_eqb_eq (fun k => match k with (z, c, jn) => mff_get t z c jn end) (mff_flat t) mff_listed).
   - intros [[z' c'] j'] v G. apply mff_get_in_flat. exact G.
   - intros kv Hin. apply (opt_eqb_eq _ _ lq_eqb_eq). exact (H2 _ Hin).
-  - intros [[[z' c'] j'] v] Hin. specialize (H3 _ Hin). simpl in H3. simpl.
+  - intros [[[z' c'] j'] v] Hin. specialize (H3 _ Hin). cbn [fst snd] in H3. cbn [fst snd].
     apply (opt_eqb_eq _ _ lq_eqb_eq). exact H3.
 Qed.
 
@@ -322,12 +325,12 @@ Theorem magnetic_absent : forall t, the_mff = Some t -> forall z,
 Proof.
   intros t E z. pose proof (on_elim _ _ _ t mff_els_c E) as H. apply andb_prop in H. destruct H as [H1 H2].
   rewrite forallb_forall in H1. rewrite forallb_forall in H2. split.
-  - intros Hn c jn v Hin. specialize (H2 _ Hin). simpl in H2. rewrite Hn in H2. discriminate.
+  - intros Hn c jn v Hin. specialize (H2 _ Hin). cbn [fst snd] in H2. rewrite Hn in H2. discriminate.
   - intro Hno. destruct (mff_el t z) as [cs|] eqn:M; [|reflexivity]. exfalso.
     unfold mff_el in M. destruct (find (fun r => Z.eqb (fst r) z) t) as [[z' cs']|] eqn:F; [|discriminate].
-    apply find_some in F. destruct F as [Hin Hk]. simpl in Hk. apply Z.eqb_eq in Hk. subst z'.
-    specialize (H1 _ Hin). simpl in H1. apply existsb_exists in H1. destruct H1 as [[[[z' c] jn] v] [Hl Hk]].
-    simpl in Hk. apply Z.eqb_eq in Hk. subst z'. exact (Hno c jn v Hl).
+    apply find_some in F. destruct F as [Hin Hk]. cbn [fst snd] in Hk. apply Z.eqb_eq in Hk. subst z'.
+    specialize (H1 _ Hin). cbn [fst snd] in H1. apply existsb_exists in H1. destruct H1 as [[[[z' c] jn] v] [Hl Hk]].
+    cbn [fst snd] in Hk. apply Z.eqb_eq in Hk. subst z'. exact (Hno c jn v Hl).
 Qed.
 
 Open Scope Q_scope.
@@ -346,7 +349,7 @@ Theorem j0_at_zero : forall t, the_mff = Some t -> forall z c v, mff_get t z c "
   995 # 1000 <= ff0_at_zero v /\ ff0_at_zero v <= 1005 # 1000.
 Proof.
   intros t E z c v G. pose proof (on_elim _ _ _ t j0_c E) as H. rewrite forallb_forall in H.
-  specialize (H _ (mff_get_in_flat _ _ _ _ _ G)). unfold j0_entry_ok in H. simpl in H.
+  specialize (H _ (mff_get_in_flat _ _ _ _ _ G)). unfold j0_entry_ok in H. cbn [fst snd] in H. rewrite String.eqb_refl in H.
   unfold unit_ok in H. apply andb_prop in H. destruct H as [H1 H2].
   split; apply Qle_bool_iff; assumption.
 Qed.
@@ -355,7 +358,7 @@ Theorem seven_coefficients : forall t, the_mff = Some t -> forall z c jn v, mff_
   List.length v = 7%nat.
 Proof.
   intros t E z c jn v G. pose proof (on_elim _ _ _ t seven_c E) as H. rewrite forallb_forall in H.
-  specialize (H _ (mff_get_in_flat _ _ _ _ _ G)). unfold seven_ok in H. simpl in H.
+  specialize (H _ (mff_get_in_flat _ _ _ _ _ G)). unfold seven_ok in H. cbn [fst snd] in H.
   apply Nat.eqb_eq. exact H.
 Qed.
 
